@@ -34,11 +34,12 @@ class Graph:
         return sum(len(v) for v in self.out.values())
 
 
-def gen_graph(name, wb, pool, src, workers=1, timeout=1200, extra_cfg='', lists=(), settable=None):
+def gen_graph(name, wb, pool, src, workers=1, timeout=1200, extra_cfg='', lists=(), settable=None,
+              recalc=False):
     d = tlc.new_scratch('eng')
     mod = f'MC_{name}_{src}'
     with open(os.path.join(d, mod + '.tla'), 'w') as f:
-        f.write(W.tla_constants(wb, pool, src, mod, lists=lists, settable=settable))
+        f.write(W.tla_constants(wb, pool, src, mod, lists=lists, settable=settable, recalc=recalc))
     with open(os.path.join(d, 'gen.cfg'), 'w') as f:
         f.write(W.ENGINE_CFG + 'INVARIANT PrintInit\nACTION_CONSTRAINT PrintEdge\n'
                 + extra_cfg)
@@ -198,6 +199,9 @@ class RealModel:
                 raise ValueError(variant)
             if act['op'] == 'set_value':
                 self.m.set_value(W.addr(act['n']), W.py_val(act['v']))
+                return 'ok', None
+            if act['op'] == 'recalculate':
+                self.m.recalculate()
                 return 'ok', None
         except Exception as exc:          # noqa
             return 'exc', f'{type(exc).__name__}: {exc}'
